@@ -120,6 +120,9 @@ func (f *Formatter) withNodeComments(expr ast.Expression, lines []string) []stri
 
 // formatConditionExpression returns a chunked condition string and flags indicating multiline/preserve.
 func (f *Formatter) formatConditionExpression(expr ast.Expression, nest, offset int) (string, bool, bool) {
+	f.insideCondition++
+	defer func() { f.insideCondition-- }()
+
 	if !f.conf.BreakCompoundConditions {
 		chunk := f.formatExpression(expr).ChunkedString(nest, offset)
 		return chunk, strings.Contains(chunk, "\n"), false
